@@ -94,7 +94,58 @@ class Prov:
             self._mb = mb
         return mb
 
-    def local(self, l, depth=0, seen=()):
+    def _preds(self):
+        pm = getattr(self, "_pm", None)
+        if pm is None:
+            pm = {}
+            for bb, blk in enumerate(self.fn.blocks):
+                t = blk["term"]
+                ss = []
+                if t["t"] == "goto":
+                    ss = [t["target"]]
+                elif t["t"] == "switch":
+                    ss = [b for _, b in t["arms"]] + [t["otherwise"]]
+                elif t["t"] in ("call", "drop", "assert"):
+                    ss = [t["target"]] if t.get("target") is not None else []
+                    if isinstance(t.get("unwind"), int):
+                        ss.append(t["unwind"])
+                for x in set(ss):
+                    pm.setdefault(x, []).append(bb)
+            self._pm = pm
+        return pm
+
+    def _reaching(self, l, at):
+        """The one definition of local l that reaches statement `at` = (bb, idx), when that can be read off a
+        straight line: only inside blocks that threading made (copies of a path for one known value), where the
+        original's single definition has become one definition per copy.  None = no refinement."""
+        bb, idx = at
+        blocks = self.fn.blocks
+        if not blocks[bb].get("clone"):
+            return None
+        seen = set()
+        while len(seen) < 16 and bb not in seen:
+            seen.add(bb)
+            stmts = blocks[bb]["stmts"]
+            hi = len(stmts) if idx is None else idx
+            for i in range(hi - 1, -1, -1):
+                st = stmts[i]
+                if st["s"] == "assign" and st["place"]["local"] == l:
+                    return None if st["place"]["proj"] else (bb, i, st)
+            preds = self._preds().get(bb, [])
+            if len(preds) != 1 or not blocks[preds[0]].get("clone"):
+                return None
+            p = preds[0]
+            t = blocks[p]["term"]
+            if t["t"] == "call" and t["dest"]["local"] == l:
+                return None if t["dest"]["proj"] else (p, "t", t)
+            bb, idx = p, None
+        return None
+
+    def local(self, l, depth=0, seen=(), at=None):
+        if at is not None and depth <= MAXD and l not in seen:
+            rd = self._reaching(l, at)
+            if rd is not None:
+                return self._def(rd, depth, seen + (l,))
         key = l
         if key in self._memo and depth == 0:
             return self._memo[key]
@@ -119,6 +170,14 @@ class Prov:
                 r = self._def(defs[0], depth, seen + (l,))
         else:
             parts = sorted(set(self._def(d, depth + 1, seen + (l,)) for d in defs))
+            if len(parts) > 1 and any("_" in x for x in parts):
+                # the same value cut at different depths (a copy of a block made by threading evaluates it from
+                # closer by): keep the most detailed spelling of each
+                kept = []
+                for x in sorted(parts, key=lambda y: (y.count("_"), -len(y))):
+                    if not any(prov_eq(x, k_) for k_ in kept):
+                        kept.append(x)
+                parts = sorted(kept)
             if len(parts) == 1:
                 r = parts[0]
             else:
@@ -130,10 +189,11 @@ class Prov:
 
     def _def(self, d, depth, seen):
         bb, idx, x = d
+        at = (bb, None if idx == "t" else idx)
         if idx == "t":
             t = x
             nm = short_fn(callee_name(t)) if t.get("callee_kind") == "direct" else "indirect"
-            args = [self.operand(a, depth + 1, seen) for a in t["args"]]
+            args = [self.operand(a, depth + 1, seen, at) for a in t["args"]]
             # smart-pointer / guard derefs and trivial conversions are transparent
             tail = nm.split("::")[-1]
             if tail in ("deref", "deref_mut", "as_ref", "as_mut", "borrow", "borrow_mut", "clone", "into", "from", "copied", "cloned", "branch", "from_residual", "from_output") and len(args) >= 1:
@@ -152,31 +212,31 @@ class Prov:
         rv = st["rv"]
         k = rv["r"]
         if k == "use":
-            return self.operand(rv["op"], depth, seen)
+            return self.operand(rv["op"], depth, seen, at)
         if k == "cast":
-            return self.operand(rv["op"], depth, seen)
+            return self.operand(rv["op"], depth, seen, at)
         if k in ("ref", "rawptr"):
-            return self.place(rv["place"], depth, seen)
+            return self.place(rv["place"], depth, seen, at)
         if k == "binop":
             op = rv["op"].replace("WithOverflow", "")
-            return "%s(%s,%s)" % (op, self.operand(rv["a"], depth + 1, seen), self.operand(rv["b"], depth + 1, seen))
+            return "%s(%s,%s)" % (op, self.operand(rv["a"], depth + 1, seen, at), self.operand(rv["b"], depth + 1, seen, at))
         if k == "unop":
             if rv["op"] == "PtrMetadata":
                 n_ = self._array_len(rv["a"])
                 if n_ is not None:
                     return "const:%d" % n_      # length of a fixed-size array behind the (unsized) reference
-                return "len(%s)" % self.operand(rv["a"], depth + 1, seen)
-            return "%s(%s)" % (rv["op"], self.operand(rv["a"], depth + 1, seen))
+                return "len(%s)" % self.operand(rv["a"], depth + 1, seen, at)
+            return "%s(%s)" % (rv["op"], self.operand(rv["a"], depth + 1, seen, at))
         if k == "discriminant":
-            return "discr(%s)" % self.place(rv["place"], depth + 1, seen)
+            return "discr(%s)" % self.place(rv["place"], depth + 1, seen, at)
         if k == "aggregate":
             if rv["agg"] == "adt":
-                return "%s::%s(%s)" % (rv["adt"].split("::")[-1], rv["variant"], ",".join(self.operand(o, depth + 1, seen) for o in rv["ops"]))
+                return "%s::%s(%s)" % (rv["adt"].split("::")[-1], rv["variant"], ",".join(self.operand(o, depth + 1, seen, at) for o in rv["ops"]))
             if rv["agg"] == "closure":
                 return "closure:%s" % rv["closure"].split("::")[-1]
-            return "%s(%s)" % (rv["agg"], ",".join(self.operand(o, depth + 1, seen) for o in rv["ops"]))
+            return "%s(%s)" % (rv["agg"], ",".join(self.operand(o, depth + 1, seen, at) for o in rv["ops"]))
         if k == "repeat":
-            return "repeat(%s)" % self.operand(rv["op"], depth + 1, seen)
+            return "repeat(%s)" % self.operand(rv["op"], depth + 1, seen, at)
         return "other"
 
     def _array_len(self, o, hops=0):
@@ -202,8 +262,8 @@ class Prov:
             return self._array_len({"k": "copy", "place": {"local": rv["place"]["local"], "proj": []}}, hops + 1)
         return None
 
-    def place(self, p, depth=0, seen=()):
-        s = self.local(p["local"], depth, seen)
+    def place(self, p, depth=0, seen=(), at=None):
+        s = self.local(p["local"], depth, seen, at)
         pending_variant = None
         for e in p["proj"]:
             k = e["p"]
@@ -231,7 +291,7 @@ class Prov:
                         continue
                 s = "%s.%s" % (s, e["name"])
             elif k == "index":
-                s = "%s[%s]" % (s, self.local(e["local"], depth + 1, seen))
+                s = "%s[%s]" % (s, self.local(e["local"], depth + 1, seen, at))
             elif k == "constindex":
                 s = "%s[%d]" % (s, e["offset"])
             elif k == "downcast":
@@ -241,10 +301,25 @@ class Prov:
                 s = "%s[%d..]" % (s, e["from"])
         return s
 
-    def operand(self, o, depth=0, seen=()):
+    def term_operand(self, o, bb):
+        """Operand of block bb's terminator: when the local it names is assigned in that very block (the usual shape
+        of a test: `_d = discriminant(x); switchInt(_d)`), that assignment is the one that counts - copies of the
+        block made by threading assign the same local elsewhere."""
+        if o["k"] in ("copy", "move") and not o["place"]["proj"]:
+            l = o["place"]["local"]
+            stmts = self.fn.blocks[bb]["stmts"]
+            for i in range(len(stmts) - 1, -1, -1):
+                st = stmts[i]
+                if st["s"] == "assign" and st["place"]["local"] == l:
+                    if st["place"]["proj"]:
+                        break
+                    return self._def((bb, i, st), 0, (l,))
+        return self.operand(o)
+
+    def operand(self, o, depth=0, seen=(), at=None):
         k = o["k"]
         if k in ("copy", "move"):
-            return self.place(o["place"], depth, seen)
+            return self.place(o["place"], depth, seen, at)
         if k == "const":
             if "named" in o and not o.get("promoted"):
                 return "const:%s" % o["named"].split("::")[-1]
@@ -339,7 +414,7 @@ class Guards:
             can = [val for (val, rk) in reach_k if node in rk]
             if 0 < len(can) < len(reach_k) and len(can) > 1:
                 names = self._variant_names(bb) or {}
-                cond = self.prov.operand(self.fn.blocks[bb]["term"]["discr"])
+                cond = self.prov.term_operand(self.fn.blocks[bb]["term"]["discr"], bb)
                 inner = cond[6:-1] if cond.startswith("discr(") else cond
                 for (val, rk) in reach_k:
                     if val not in can and val != "otherwise":
@@ -477,7 +552,7 @@ class Guards:
 
     def describe_all(self, bb, val, vals):
         t = self.fn.blocks[bb]["term"]
-        cond = self.prov.operand(t["discr"])
+        cond = self.prov.term_operand(t["discr"], bb)
         others = [v for v in vals if v != val]
         if cond.startswith("discr("):
             inner = cond[6:-1]
